@@ -271,7 +271,7 @@ fn parse_multipart_body_part(
     // The part should start with a newline after the boundary. We need to ignore characters before
     // it in case of extra whitespaces, and for compatibility it might not have a CR.
     let headers_start = memchr::memchr(b'\n', &bytes[start..end])
-        .expect("the end boundary contains a newline")
+        .ok_or(MultipartMixedDeserializationError::MissingBodyPartInnerSeparator)?
         + start
         + 1;
 
